@@ -21,7 +21,7 @@ Ltac unf :=
   cbv [funnel layer_prefix perform through pep479 layer_handler wrapper_handler read_handler
        write_handler close_handler close_peer_alert checker_step getmsg_peer_alert
        record_handler getmsg_handler sendError record_alert getmsg_alert mapped_alert
-       wrapper_alert mapped_alert_ly unsendable_wrapper_alert decrypt_error
+       wrapper_alert wrapper_own_alert mapped_alert_ly decrypt_error
        under_record under_getmsg is_pretry layer_eqb wf_event escapes_handlers keeps_resumable
        unexpected_message record_overflow illegal_parameter decryption_failed bad_record_mac
        bad_certificate decode_error close_notify level_fatal level_warning] in *.
@@ -127,21 +127,19 @@ Proof. destruct e; vm_compute; congruence. Qed.
        (the wrapper re-raises TLSAlert without closing; all five `raise TLS*Alert` sites of
        tlslite shut down first, they are the actions ASendError / APeerAlert /
        AShutRaiseRemote / AShutRaiseSock).
-   unsendable_wrapper_alert is the fourth: the alert of one of the wrapper's own clauses
-   (TLSIllegalParameterException / TLSDecodeError / TLSDecryptionFailed reaching it
-   unconverted) cannot be sent; socket.error then leaves the wrapper with nothing shut down.
+   (Since 0bc7834 a failing send of the wrapper's own alert is no longer a hole:
+   wrapper_alert_unsendable_closes.)
    keeps_resumable: writeAsync with ignoreAbruptClose, and an orderly close_notify. *)
 Theorem funnel_postcondition_all :
   forall ly dp a sf st r st',
     wf_event ly dp a = true ->
-    unsendable_wrapper_alert ly dp a sf = false ->
     funnel ly dp a sf st = (Raised r, st') ->
     closed st' = true
     /\ (close_socket st = true -> sock_closed st' = true)
     /\ (has_session st = true -> keeps_resumable ly a st = false -> resumable st' = false)
     /\ has_session st' = has_session st.
 Proof.
-  intros ly dp a sf [cl sc hs rs w cs ia fl] r st' Hwf Hu H.
+  intros ly dp a sf [cl sc hs rs w cs ia fl] r st' Hwf H.
   destruct ly, dp, a; unf; red1; try discriminate;
     fin; repeat (split1; red1; fin);
     repeat split; intros; red1; fin; try reflexivity;
@@ -289,6 +287,28 @@ Corollary parser_tls_decode_error_now_alert :
          shutdown false (emit (WAlert level_fatal decode_error) st)).
 Proof. intros [cl sc hs rs w cs ia fl]. reflexivity. Qed.
 
+(* ... and when that alert cannot be sent (0bc7834): socket.error for the caller, and the
+   connection is closed all the same: state = shutdown false st, nothing but the shutdown on
+   the wire *)
+Theorem wrapper_alert_unsendable_closes :
+  forall dp e d0 st o st' d,
+    is_pretry dp = false -> mapped_alert dp e = None -> wrapper_alert e = Some d ->
+    funnel LHandshake dp (ARaise e d0) true st = (o, st') ->
+    o = Raised (mkr E_SockError None)
+    /\ st' = shutdown false st
+    /\ wire st' = wire st ++ [WShutdown false]
+    /\ closed st' = true
+    /\ (close_socket st = true -> sock_closed st' = true)
+    /\ (has_session st = true -> resumable st' = false)
+    /\ documented E_SockError = true.
+Proof.
+  intros dp e d0 [cl sc hs rs w cs ia fl] o st' d Hp Hm Hw H.
+  destruct e; try discriminate; destruct dp; try discriminate;
+    unf; red1; fin; repeat (split1; red1; fin);
+    repeat split; intros; red1; fin; try reflexivity;
+    subst; try rewrite orb_true_r; reflexivity.
+Qed.
+
 (* the residue: every other class that is not a TLSAlert, raised in the handshake body outside
    _getMsg, still reaches the caller unchanged: socket closed, but NO alert was sent *)
 Theorem direct_raise_still_without_alert :
@@ -383,18 +403,6 @@ Lemma checker_alert_leaves_connection_open :
 Proof.
   exists (mkcst false false true true [] true false None). eexists.
   split; [vm_compute; reflexivity|]. repeat split.
-Qed.
-
-(* the alert of the wrapper's own clauses cannot be sent: socket.error comes out of an except
-   clause, the bare `except:` of the same try does not run: nothing is shut down *)
-Lemma wrapper_alert_send_failure_leaves_open :
-  forall dp e d0 st d,
-    is_pretry dp = false -> mapped_alert dp e = None -> wrapper_alert e = Some d ->
-    unsendable_wrapper_alert LHandshake dp (ARaise e d0) true = true
-    /\ funnel LHandshake dp (ARaise e d0) true st = (Raised (mkr E_SockError None), st).
-Proof.
-  intros dp e d0 [cl sc hs rs w cs ia fl] d Hp Hm Hw.
-  destruct e; try discriminate; destruct dp; try discriminate; split; reflexivity.
 Qed.
 
 (* writeAsync with ignoreAbruptClose keeps the session resumable whatever went wrong *)
